@@ -606,6 +606,10 @@ struct UdpObs {
     assoc_err: Option<String>,
     /// SOCKS5: datagrams with FRAG != 0 sent (a relay without reassembly must drop them, RFC 1928 section 7), how many of them
     /// were nevertheless answered by the target, and ordinary datagrams sent / replies received AFTER the fragments
+    /// main phase of a SOCKS5 association: datagrams addressed to the second target / distinct requests of those that were answered
+    second_target_sent: usize,
+    second_target_answered: usize,
+    first_target_answered: usize,
     /// churn group (clients coming and going over more than two prune periods): datagrams sent / replies received during the
     /// last phase, after older clients have been forgotten and newcomers have appeared
     churn_late_sent: usize,
@@ -712,6 +716,7 @@ async fn udp_client(env: Arc<Env>, seed: u64, cid: u64, socks5: bool, n: usize, 
         let second = socks5 && rng.chance(1, 2);
         if second {
             o.two_targets_used = true;
+            o.second_target_sent += usize::from(k > 0);
         }
         for r in 0..k {
             let mut out = vec![if second { b'S' } else { b'R' }, r];
@@ -742,6 +747,17 @@ async fn udp_client(env: Arc<Env>, seed: u64, cid: u64, socks5: bool, n: usize, 
         collect(&sock, dest, socks5, cid, &expected, &mut seen, &mut o, deadline).await;
     }
     collect(&sock, dest, socks5, cid, &expected, &mut seen, &mut o, Instant::now() + Duration::from_millis(400)).await;
+    {
+        // which of the main phase's requests were answered, per target (the marker of the answering target is the first byte)
+        let answered_by = |m: u8| {
+            let mut seqs: Vec<u32> = seen.iter().filter(|(q, r)| expected.get(&(*q, *r)).is_some_and(|e| e[0] == m)).map(|(q, _)| *q).collect();
+            seqs.sort_unstable();
+            seqs.dedup();
+            seqs.len()
+        };
+        o.first_target_answered = answered_by(b'R');
+        o.second_target_answered = answered_by(b'S');
+    }
     // (only clients without the later one-way / idle phases: a datagram for the other address family makes the server set the
     // flow up again on a new socket, which would void the premise of those phases - "the flow is one flow all along")
     if socks5 && env.dual_host.is_none() && env.udp_target6_port != 0 && cid % 4 == 3 {
@@ -1404,6 +1420,12 @@ fn judge(st: &mut Stats, seed: u64, out: &RunOut) {
             st.target("udp_flows_resumed_after_idle", 1);
             if o.after_idle_sent >= 5 && o.after_idle_replies == 0 {
                 st.violation(Violation { signature: format!("udp-flow-dead-after-idle|{kind}"), detail: format!("the local socket was silent for 11 s and then sent {} datagrams at 200 ms intervals: not one reply came back although the exchange worked before the pause ({} replies): the flow stays black-holed", o.after_idle_sent, o.replies - o.after_idle_replies), replay: replay() });
+            }
+        }
+        if o.second_target_sent >= 5 {
+            st.count("main_phase_requests_answered_by_second_target", o.second_target_answered as u64);
+            if o.second_target_answered == 0 && o.first_target_answered >= 3 {
+                st.violation(Violation { signature: format!("udp-second-target-of-a-flow-never-answers|{kind}"), detail: format!("one association addressed two targets alternately: {} requests to the first target were answered, none of the {} to the second (its replies do not come back through the flow)", o.first_target_answered, o.second_target_sent), replay: replay() });
             }
         }
         if o.churn_late_sent > 0 {
